@@ -10,8 +10,18 @@ TRUSTED = [
     "hand-written model props/C05/coq/Model.v of MergeQPRs/removeRepetitionsAdvanced, FilterInRange/Sort/Shift, "
     "SearchDocs + calcEnsuredIDsCount, the per-fraction answer of iterateEvalTree, Ingestor.Search merge + paginateIDs "
     "(tied to /repo by the correspondence run, not verified code)",
+    "hand-written model props/C05/coq/ModelAgg.v of the field aggregations' mergeable state: SamplesContainer "
+    "(NewSamplesContainers, InsertNTimes, Merge; Total, NotExists, Sum, Min, Max as exact integers, the sample reservoir "
+    "left out), AggregatableSamples.Merge, what TwoSourceAggregator answers for one fraction (modelled document by "
+    "document instead of count-by-source-pair then InsertNTimes), the aggregation part of the SearchDocs loop and of the "
+    "proxy merge; and props/C05/coq/ModelDocs.v of searchShard / searchHost (which source id an answer gets, for any "
+    "order idx in which the replicas are asked), the fraction name as hint, and the fetch by source and hint "
+    "(tied to /repo by the classes aggfield, proxy-aggfield, proxy-docs)",
     "Go harness harness/cmd/hC05 (generators, QPR canonicalisation, in-memory fractions for the high-volume SearchDocs "
-    "cases, in-process StoreApiClient adapter around storeapi.GrpcV1.Search) and harness/internal/fracbuild",
+    "cases, in-process StoreApiClient adapter around storeapi.GrpcV1.Search and GrpcV1.Fetch (the handler's blocks are "
+    "replayed to the proxy's stream reader), numbering of hosts / fraction names / document bodies for the model; with "
+    "ShuffleReplicas the driver repeats a request until util.IdxShuffle draws the wanted order, only that run is "
+    "recorded) and harness/internal/fracbuild",
     "which documents match the query inside ONE fraction is decided by the harness's own k-in-set oracle; it is "
     "cross-checked on every real case against a real single fraction holding everything (query evaluation is C02's subject)",
 ]
@@ -25,15 +35,30 @@ ASSUME = [
     "Info.IsIntersecting's optional MIDs-distribution refinement is covered by the theorem hypothesis "
     "(dropped fractions have no hit), the model filters by From/To only",
     "limit, offset, size, FractionsPerIteration >= 0 (negative values are rejected by the proxy / config validation)",
+    "field aggregations: field values are integers of small magnitude, for which the code's float64 Sum/Min/Max are exact "
+    "(the theorems are over exact integers; float rounding of large or fractional sums depends on the merge order and is "
+    "NOT covered); no time series (AggBin.MID = 0); quantile samples are not modelled; every stored copy of a document "
+    "counts (no duplicate repair in aggregations), so the split-independence of field aggregations is claimed for the "
+    "multiset of stored documents",
+    "documents: source ids are distinct per host and fraction names distinct per store (NewIngestor, ULID names); which of "
+    "several equal IDs (same document on two shards) survives the merge is not determined - the theorem and the checker "
+    "accept every reporting shard; a replica that refuses searches still serves fetches",
 ]
 RULE = ("random corpora (1..30 documents, time span 2..60 ms so that borders collide) x random layouts (1..6 fractions: "
         "arbitrary / contiguous / contiguous with strays / one spanning all; optional duplicate copies) x requests (sub-ranges "
         "on document timestamps, limit 0..n+5, both orders, total/histogram/count-aggregation on or off) x "
         "FractionsPerIteration in {all,1,2,3}: real SearchDocs over in-memory fractions (high volume) and over real "
         "active/sealed fractions with a real one-fraction reference; real Ingestor.Search over 1..3 shards x 1..3 replicas "
-        "of in-process stores with failing replicas and page walks; pure MergeQPRs / calcEnsuredIDsCount / paginateIDs on "
-        "random QPRs. non-trivial = >= 2 fractions with overlapping ranges and more hits than the limit (search), "
-        "duplicates and a cut (merge), a proper prefix ensured, an inner page; distinct by input")
+        "of in-process stores with failing replicas and page walks; the same with ShouldFetch, ShuffleReplicas off and on "
+        "(every order of 2 and 3 replicas, refusing replicas before the answering one), every replica ingested separately so "
+        "that a hint names a fraction of ONE replica only: every listed ID with the host and fraction it is attributed to and "
+        "the delivered document against the stored one; aggregations sum/min/max/avg(v) group by g with documents lacking v "
+        "and/or g over real active/sealed fractions (random layouts and layouts where one part of a group holds only "
+        "documents without the field, both orders, FractionsPerIteration 0/1/2/3) with a real one-fraction reference and a "
+        "direct per-bin computation, and through Ingestor.Search over 1..3 shards; pure MergeQPRs / calcEnsuredIDsCount / "
+        "paginateIDs on random QPRs. non-trivial = >= 2 fractions with overlapping ranges and more hits than the limit (search), "
+        "duplicates and a cut (merge), a proper prefix ensured, an inner page, a group part without the field (field "
+        "aggregations), the answering replica not at the loop position (documents); distinct by input")
 
 
 def harness_args(tier, seed, outdir):
